@@ -11,7 +11,7 @@ import jaxtyping
 from common import PY, REPO, Rng, scratch_dir
 
 LEVEL = "proof"
-THEOREMS = ["C11_dotted", "C11_history", "C11_loaded_stable", "C11_uninstalled", "C11_no_hook", "C11_lookup", "C11_generated_good"]
+THEOREMS = ["C11_dotted", "C11_history", "C11_loaded_stable", "C11_uninstalled", "C11_no_hook", "C11_lookup", "C11_generated_good", "C11_source_should", "C11_source_find_spec"]
 RULE = (
     "a generated package forest (siblings with common string prefixes foo / foobar / foo_bar / fo, nested "
     "sub-packages, modules importing each other) written to a scratch directory; random histories of "
@@ -28,6 +28,7 @@ TRUSTED = [
     "Lean 4 kernel",
     "importlib: sys.meta_path is consulted front to back, parents are imported first, a module in sys.modules is not loaded again",
     "md5 collision-freeness (typechecker lookup key)",
+    "harness/translate_hook.py (recognisers of the statements of should_instrument / find_spec) and the interpreter Model/FinderDsl.lean",
 ]
 
 FOREST = {
